@@ -13,7 +13,7 @@ from vmon.wsgi import make_environ, call_app, RecStream
 RULE = ('grid cells (size, max_body_size L, max_memfile_size B, framing, content kind), sizes in {0,1,L-1,L,L+1,L+B-1,L+B,L+B+1,10L} (relative to B '
         'when there is no limit), L in {None,0,1,17,100,4096}, B in {1,16,100,4096}; each cell is one request through Ombott.__call__ whose handler '
         'reads the body the way the content kind asks. Non-trivial = the size is within one buffer of a limit or above it; distinct = distinct cell.')
-REQUIRED = ['chunked_with_misleading_content_length', 'multipart_text_over_threshold_in_several_fields', 'rejected_413', 'accepted_within_limit', 'spooled_to_disk', 'kept_in_memory', 'consumption_checked', 'chunked_cells', 'cl_cells',
+REQUIRED = ['limits_given_to_ctor', 'limits_given_to_setup', 'limits_given_to_resetup', 'chunked_with_misleading_content_length', 'multipart_text_over_threshold_in_several_fields', 'rejected_413', 'accepted_within_limit', 'spooled_to_disk', 'kept_in_memory', 'consumption_checked', 'chunked_cells', 'cl_cells',
             'urlencoded_refused_over_threshold', 'multipart_text_refused_over_threshold', 'multipart_file_over_threshold_delivered',
             'content_compared', 'exactly_at_limit_accepted', 'one_over_limit_rejected']
 EXHAUSTIVE = {'quick': False, 'thorough': False, 'quick_note': 'the grid units enumerate the grid without L=4096/B=4096 completely; random units add seeded off-grid cells', 'thorough_note': 'the grid units enumerate the whole grid completely; random units add seeded off-grid cells'}
@@ -81,9 +81,23 @@ def make_body(kind, size):
     return body, {'data': data, 'hdr_len': hdr_len}
 
 
-def build_app(L, B, seen):
+HOWS = ['ctor', 'setup', 'resetup']     # how the application came by its limits
+HOW_OF = {}
+
+
+def build_app(L, B, seen, how='ctor'):
     import ombott
-    app = ombott.Ombott({'max_body_size': L, 'max_memfile_size': B})
+    cfg = {'max_body_size': L, 'max_memfile_size': B}
+    if how == 'ctor':
+        app = ombott.Ombott(cfg)
+    elif how == 'setup':
+        app = ombott.Ombott()           # created with the defaults, configured afterwards
+        app.setup(cfg)
+    else:
+        app = ombott.Ombott({'max_body_size': 5 if L is None else None, 'max_memfile_size': B * 3 + 7})
+        app.setup({'max_body_size': 3, 'max_memfile_size': 2})
+        app.setup(cfg)                  # the last setup() is the one in force
+    HOW_OF[id(app)] = how
 
     @app.route('/raw', method='POST')
     def raw():
@@ -131,7 +145,8 @@ def cell(ctx, app, seen, S_target, L, B, framing, kind, grid=False):
     r = call_app(app, env)
     consumed = st.consumed if table is None else payload_within(table, st.consumed)
     where = f'size={S} L={L} B={B} framing={"CL" if framing == "cl" else "chunks of %d" % framing} kind={kind}'
-    wit = {'unit': {'kind': 'cell', 'S': S_target, 'L': L, 'B': B, 'framing': framing, 'ckind': kind}}
+    wit = {'unit': {'kind': 'cell', 'S': S_target, 'L': L, 'B': B, 'framing': framing, 'ckind': kind, 'how': HOW_OF.get(id(app), 'ctor')}}
+    ctx.count('limits_given_to_' + HOW_OF.get(id(app), 'ctor'))
     near = (L is not None and S > L - B - 1) or abs(S - B) <= 1 or S > B
     ctx.case(None if grid else (S, L, B, framing, kind), nontrivial=near)
     if r.escaped is not None or r.problems:
@@ -285,7 +300,7 @@ def random_unit(ctx, unit):
         L = rng.choice([None, rng.randint(0, 40), rng.randint(41, 700), rng.randint(701, 9000)])
         B = rng.choice([rng.randint(8, 40), rng.randint(41, 600), rng.randint(601, 5000), 102400])
         seen = {}
-        app = build_app(L, B, seen)
+        app = build_app(L, B, seen, rng.choice(HOWS))
         for _ in range(6):
             base = L if L is not None else B
             S = max(0, rng.choice([base, base + 1, base - 1, base + B, base + B + 1, base + B - 1, rng.randint(0, 2 * base + 2 * B + 10), B, B + 1, 0]))
@@ -303,7 +318,7 @@ def random_unit(ctx, unit):
 def grid_unit(ctx, unit):
     L, B = unit['L'], unit['B']
     seen = {}
-    app = build_app(L, B, seen)
+    app = build_app(L, B, seen, HOWS[((L or 0) + B) % 3])
     framings = ['cl'] + sorted({1, max(1, B - 1), B, B + 1, 10 * B})
     if B < 8:
         # the chunk size line (digits + CRLF) must fit the configured buffer (anchored mechanism, see C05): no chunked cells here
@@ -325,6 +340,6 @@ def run_unit(ctx, unit):
         random_unit(ctx, unit)
     else:
         seen = {}
-        app = build_app(unit['L'], unit['B'], seen)
+        app = build_app(unit['L'], unit['B'], seen, unit.get('how', 'ctor'))
         cell(ctx, app, seen, unit['S'], unit['L'], unit['B'], unit['framing'], unit['ckind'])
         print('  handler saw:', {k: (v if not isinstance(v, (bytes, dict)) else str(v)[:80]) for k, v in seen.items()})
